@@ -121,6 +121,62 @@ class SyncModel:
                                     return True
         return False
 
+    def check_sites(self, body, bb):
+        """blocks in which the Result produced by the call at bb is checked (`?`, unwrap, expect) ; None
+        when the callee is infallible ; [] when it is never checked ; ['ret'] when it is returned as is"""
+        t = body.term(bb)
+        d = t["dest"]
+        if not self.fallible(body.place_ty(d)):
+            return None
+        if d["l"] == 0 and not d.get("p"):
+            return ["ret"]
+        if d.get("p"):
+            return []
+        out = []
+        seen = set()
+
+        def go(l):
+            if l in seen:
+                return
+            seen.add(l)
+            for (kind, b, i, pl, dest, obj) in self.ui(body).of(l):
+                if kind == "arg":
+                    c = obj.get("callee") or ""
+                    if c.endswith("Try>::branch") or c.endswith("::unwrap") or c.endswith("::expect"):
+                        out.append(b)
+                    elif c.endswith(("::map_err", "::context", "::with_context", "::map", "From>::from", "::into")):
+                        dd = obj["dest"]
+                        if dd["l"] == 0 and not dd.get("p"):
+                            out.append("ret")
+                        elif not dd.get("p"):
+                            go(dd["l"])
+                elif kind == "assign" and dest is not None:
+                    if dest["l"] == 0 and not dest.get("p"):
+                        out.append("ret")
+                    elif not dest.get("p"):
+                        go(dest["l"])
+                elif kind == "discr":
+                    out.append(b)
+
+        go(d["l"])
+        return out
+
+    def checked_before(self, body, bb, P):
+        """the result of the call at bb is checked on every success path from bb to P"""
+        cs = self.check_sites(body, bb)
+        if cs is None:
+            return True
+        for c in cs:
+            if c == "ret":
+                if P == "ret":
+                    return True
+                continue
+            if c == bb:
+                return True
+            if self.must_pass(body, bb, c, P):
+                return True
+        return False
+
     def _same_local(self, body, root, l):
         # the root is the call that defined local l
         for (b, i, kind, obj) in body.defs().get(l, []):
@@ -345,6 +401,8 @@ class SyncModel:
             g, why = self.gate(body, d, None)
             if g is None:
                 continue
+            if body.term(d)["k"] == "call" and (body.term(d).get("callee") or "") not in IO_RECV and not self.checked_before(body, d, "ret"):
+                continue
             if self.must_pass(body, None, g, "ret"):
                 res = True
                 if why == "loop":
@@ -369,6 +427,8 @@ class SyncModel:
                         continue
                     if d == c and not stmt_event:
                         continue
+                    if body.term(d)["k"] == "call" and (body.term(d).get("callee") or "") not in IO_RECV and not self.checked_before(body, d, P):
+                        continue  # joined / waited, but the outcome is looked at only after P
                     if self.must_pass(body, c, g, P, stmt_event):
                         ok = True
                         if why == "loop":
